@@ -85,6 +85,8 @@ impl Out {
     pub fn rec(&mut self, v: &serde_json::Value) {
         serde_json::to_writer(&mut self.w, v).unwrap();
         self.w.write_all(b"\n").unwrap();
+        // (flushed record by record: a watchdog may end the process at any time and the trace so far must be on disk)
+        self.w.flush().unwrap();
         self.lines += 1;
     }
     pub fn finish(mut self) -> usize {
